@@ -131,6 +131,8 @@ def _always_returns(stmts: Sequence[ast.stmt]) -> bool:
         return True
     if isinstance(last, ast.If):
         return _always_returns(last.body) and _always_returns(last.orelse)
+    if isinstance(last, ast.With):
+        return _always_returns(last.body)
     return False
 
 
@@ -159,6 +161,16 @@ def _tailify(stmts: List[ast.stmt], budget: List[int]) -> Optional[List[ast.stmt
             ast.copy_location(new, st)
             out.append(new)
             return out
+        if isinstance(st, ast.With) and _contains_return(st):
+            # ``with lock: ... return x`` in tail position: the returns stay inside the with block
+            rest = stmts[i + 1:]
+            body = _tailify(st.body, budget)
+            if body is None or (rest and not _always_returns(body)):
+                return None
+            new = ast.With(items=st.items, body=body)
+            ast.copy_location(new, st)
+            out.append(new)
+            return out
         if _contains_return(st):
             return None
         out.append(st)
@@ -174,6 +186,10 @@ def _finish(stmts: List[ast.stmt], make, fall) -> List[ast.stmt]:
         st = stmts[-1]
         st.body = _finish(st.body, make, fall) or [ast.copy_location(ast.Pass(), st)]
         st.orelse = _finish(st.orelse, make, fall)
+        return stmts
+    if stmts and isinstance(stmts[-1], ast.With) and _contains_return(stmts[-1]):
+        st = stmts[-1]
+        st.body = _finish(st.body, make, fall) or [ast.copy_location(ast.Pass(), st)]
         return stmts
     if stmts and isinstance(stmts[-1], ast.Raise):
         return stmts
@@ -395,7 +411,8 @@ class _Inliner:
         else:
             return None
         for x in _walk_no_defs(header):
-            if isinstance(x, ast.Call) and not (x is getattr(st, "value", None) and isinstance(st, (ast.Expr, ast.Assign, ast.AnnAssign, ast.Return))):
+            direct = x is getattr(st, "value", None) and (isinstance(st, (ast.Expr, ast.AnnAssign, ast.Return)) or (isinstance(st, ast.Assign) and len(st.targets) == 1 and isinstance(st.targets[0], ast.Name)))
+            if isinstance(x, ast.Call) and not direct:
                 hit = self.helper_of(x)
                 if hit is None or not self._spine_only(header, x):
                     continue
